@@ -836,6 +836,21 @@ func (c *FCtx) execLoop(st *State, lp *loopParts) []Flow {
 		c.oblige(st, "unreachable", lname+"/unreachable", False(), pos)
 		return nil
 	}
+	if spec.DeadBody {
+		// `loop N deadbody`: the loop is reached but never entered (its guard is false on arrival); proved, then the body is skipped
+		var g *Term
+		if lp.guard != nil {
+			g = lp.guard(st)
+		} else if lp.cond != nil {
+			g = c.eval(st, lp.cond).(SV).T
+		} else {
+			g = True()
+		}
+		fl := c.takeSide()
+		c.oblige(st, "unreachable", lname+"/body-never-entered", Not(g), pos)
+		st.assume(Not(g))
+		return append(fl, Flow{st: st})
+	}
 	// 1. invariants hold on entry
 	env := c.invEnv(st, lp.node)
 	for k, inv := range spec.Invs {
